@@ -135,8 +135,28 @@ class TypeGen:
             return ["Tuple", t[1][:i] + [self.narrow(t[1][i], names)] + t[1][i + 1:], t[2]]
         return t
 
+    def split_pair(self, names):
+        """an object (or tuple) one of whose components is a union, against the union of the objects (tuples) with one alternative
+        each: the same set of values, which only the joint coverage by several right-hand members shows"""
+        r = self.r
+        alts = [self.leaf() for _ in range(r.randrange(2, 4))]
+        if r.random() < 0.3: alts = [["Boolean"]] if r.random() < 0.5 else alts
+        others = [[k, [r.random() < 0.7, self.ty(1, names)]] for k in sorted(r.sample(["b", "c"], r.randrange(0, 3)))]
+        if alts == [["Boolean"]]:
+            whole, parts = ["Boolean"], [lit_b(True), lit_b(False)]
+        else:
+            whole, parts = ["AnyOf", alts], alts
+        if r.random() < 0.7:
+            a = ["Object", sorted([["a", [True, whole]]] + others), None]
+            b = ["AnyOf", [["Object", sorted([["a", [True, p]]] + others), None] for p in parts]]
+        else:
+            a = ["Tuple", [whole, self.leaf()], None]
+            b = ["AnyOf", [["Tuple", [p, a[1][1]], None] for p in parts]]
+        return a, b, "split-union"
+
     def pair(self, names):
         r = self.r
+        if r.random() < 0.12: return self.split_pair(names)
         a = self.ty(3, names)
         q = r.random()
         if q < 0.3: return a, self.ty(3, names), "random"
